@@ -68,7 +68,7 @@ def _evaluate(case, c, d, cont, cover=False, label=""):
         method = "milp" if (up - lo) <= 1e-7 * max(oracle.FLOOR, abs(lo)) else "milp-gap"
     if method in ("dp", "assignment") and nunits <= 12 and case.get("xcheck", 0) == 1:
         up2, lo2 = oracle.optimum_milp(lst, costs, cover)
-        if abs(up2 - up) > 1e-7 * max(oracle.FLOOR, abs(up)):
+        if abs(up2 - up) > 5e-6 * max(oracle.FLOOR, abs(up)):   # HiGHS stops at an absolute gap of 1e-6 (in units of delta_empty)
             raise HarnessError(f"oracles disagree: {method}={up} milp={up2} on {case}")
     mean_units = nunits / n
     ref_up, ref_lo = up / mean_units, lo / mean_units
